@@ -220,9 +220,13 @@ def seq_emitter(F, fn):
     ser = ("param", [n for p in fn["params"] for n, _ in H.pat_bindings(p)][-1])
 
     def strip_views(t):
-        while t[0] == "call" and len(t[2]) == 1 and t[1].split("::")[-1] in ("as_slice", "as_ref", "deref", "iter", "into_iter", "copied", "cloned", "by_ref"):
-            t = t[2][0]
-        return t
+        while True:
+            if t[0] == "call" and len(t[2]) == 1 and t[1].split("::")[-1] in ("as_slice", "as_ref", "deref", "iter", "into_iter", "copied", "cloned", "by_ref"):
+                t = t[2][0]
+            elif t[0] in ("copy", "mutated"):
+                t = t[1]        # the loop's iterator variable: a cursor over the collection
+            else:
+                return t
 
     effs = [e for p in paths for e in p.effects]
     if any(e.tcallee == COLLECT for e in effs):
